@@ -525,17 +525,15 @@ fn main() {
             });
             let body_done = rx.recv_timeout(Duration::from_secs(30)).is_ok();
             // 30 s are ten thousand report intervals: a watchdog for "never", not a deadline
-            let t = Instant::now();
-            let mut exited = false;
-            while t.elapsed() < Duration::from_secs(30) {
-                if worker.is_finished() {
-                    exited = true;
-                    break;
-                }
-                std::thread::sleep(Duration::from_millis(5));
-            }
+            // (join() returns only after the thread-local destructors have run; is_finished() does not wait for them)
+            let (jtx, jrx) = std::sync::mpsc::channel();
+            let joiner = std::thread::spawn(move || {
+                let _ = worker.join();
+                let _ = jtx.send(());
+            });
+            let exited = jrx.recv_timeout(Duration::from_secs(30)).is_ok();
             release.store(true, Ordering::SeqCst);
-            let _ = worker.join();
+            let _ = joiner.join();
             extra = json!({"worker_body_returned": body_done, "worker_thread_exited_while_the_reporter_was_busy": exited});
             if !body_done {
                 panic!("tracing calls on a thread with a full queue did not return within 30 s while the reporter was busy");
